@@ -322,6 +322,26 @@ class _CData(metaclass=_Meta):
             raise ValueError("Buffer size too small (%d instead of at least %d bytes)" % (len(raw), n + offset))
         return cls._from_bvs([Tags.get(raw[offset + i]) for i in range(n)])
 
+    @classmethod
+    def from_buffer(cls, buf, offset=0):
+        """zero-copy view, as in ctypes: the object keeps reading the (writable) buffer, so later writes to the buffer show through"""
+        if not isinstance(buf, (bytearray, memoryview)):
+            raise TypeError("underlying buffer is not writable")
+        n = cls._size()
+        if len(buf) - offset < n:
+            raise ValueError("Buffer size too small (%d instead of at least %d bytes)" % (len(buf), n + offset))
+        o = cls._from_bvs([Tags.get(buf[offset + i]) for i in range(n)])
+        object.__setattr__(o, "_live", (buf, offset, n))
+        return o
+
+    def _refresh(self):
+        live = getattr(self, "_live", None)
+        if live is not None:
+            buf, offset, n = live
+            fresh = type(self)._from_bvs([Tags.get(buf[offset + i]) for i in range(n)])
+            if hasattr(fresh, "_vals"):
+                object.__setattr__(self, "_vals", fresh._vals)
+
 
 class _Scalar(_CData):
     _bits_ = 8
@@ -439,6 +459,7 @@ class _Field:
     def __get__(s, obj, owner=None):
         if obj is None:
             return s
+        obj._refresh()
         v = obj._vals[s.name]
         if s.bits is not None:
             return from_bv(v, s.typ._signed_)
